@@ -673,6 +673,29 @@ fn directed(t: &mut Trace) {
     s.check(t, &[md(Zero, 0, None)], &[Ctx::Create], &[]);
     s.exec(t, ext, None, &[]);
     // ---------------------------------------------------------------------------------------
+    // predecessor links THROUGH the controller's own schedule_op / execute_op / hash_operation, with a
+    // predecessor that differs from the salt (both are 32-byte strings): the successor waits for the
+    // predecessor, an unknown or cancelled predecessor blocks for ever
+    t.seq("directed predecessor links through the controller start=100 min=0 prop=1 exec=- admin=-");
+    let mut s = Sim::new(100, 0, &[1], &[], None);
+    let pa = s.def(t, od(9, 10, &[U(1)], Zero, 5));
+    let pb = s.def(t, od(9, 10, &[U(2)], Op(pa), 0)); // needs pa; salt 0
+    let pc = s.def(t, od(9, 10, &[U(3)], Raw(7), 0)); // names an id nobody scheduled
+    let pd = s.def(t, od(9, 10, &[U(4)], Op(pb), 6)); // needs pb
+    for k in [pa, pb, pc, pd] {
+        s.sched(t, k, 0, 1, &[Tok::Call(1)]);
+    }
+    s.advance(t, 1);
+    s.exec(t, pb, None, &[]); // pa not done
+    s.exec(t, pd, None, &[]); // pb not done
+    s.exec(t, pc, None, &[]); // never
+    s.exec(t, pa, None, &[]);
+    s.exec(t, pd, None, &[]); // still not: pb
+    s.exec(t, pb, None, &[]);
+    s.exec(t, pb, None, &[]); // once
+    s.exec(t, pd, None, &[]);
+    s.exec(t, pc, None, &[]); // never
+    // ---------------------------------------------------------------------------------------
     t.seq("directed executors configured start=50 min=0 prop=1.2 exec=3.4 admin=-");
     let mut s = Sim::new(50, 0, &[1, 2], &[3, 4], None);
     let u1 = s.def(t, od(0, 0, &[U(7)], Zero, 1));
